@@ -34,7 +34,7 @@ def gates(c, tier):
     for lf in LENFORMS[1:]:
         if c.get("freedom:" + lf, 0) == 0:
             out.append(f"length form {lf} never applied")
-    for k in ("freedom:TRUE!=ff", "freedom:explicit-default:criticality", "freedom:explicit-default:dnAttributes", "freedom:trailing", "freedom:trailing-after-all-components",
+    for k in ("freedom:TRUE!=ff", "freedom:explicit-default:criticality", "freedom:explicit-default:dnAttributes", "freedom:trailing", "freedom:trailing-envelope-[10]", "freedom:trailing-after-all-components",
               "ad-style-all-84", "via:unpack", "via:receive", "via:receive-two-pieces", "systematic"):
         if c.get(k, 0) == 0:
             out.append(f"never applied: {k}")
@@ -161,7 +161,15 @@ def decode_both(data: bytes, a, acc_count):
     return out
 
 
-def apply_random(root, r, acc_count, p_len=0.35, p_trail=0.25):
+def envelope_trailing(r, a):
+    """[10] at the end of the envelope: the library reads it as the responseName of MS-ADTS's notice of disconnection for an
+    ExtendedResponse without a name; for every other message it is one more unrecognised trailing element."""
+    if a is None or (a[0] == "ExtendedResponse" and not a[2][1]):
+        return None
+    return ber.Node(ber.CTX, False, 10, content=r.choice([b"1.2.3", b"cn=someone-else", b"1.3.6.1.4.1.1466.20036", b"", b"x"]), kind="TRAIL")
+
+
+def apply_random(root, r, acc_count, p_len=0.35, p_trail=0.25, a=None):
     depths = set()
     nfree = 0
     for n, d in all_nodes(root):
@@ -179,7 +187,10 @@ def apply_random(root, r, acc_count, p_len=0.35, p_trail=0.25):
                 nfree += 1
         if n.kind == "SEQ" and n.children is not None and r.random() < p_trail:
             for _ in range(r.choice([1, 1, 2])):
-                n.children.append(g_trailing(r, n.meta == "all-present"))
+                t10 = envelope_trailing(r, a) if (d == 0 and r.random() < 0.35) else None
+                if t10 is not None:
+                    acc_count("freedom:trailing-envelope-[10]")
+                n.children.append(t10 or g_trailing(r, n.meta == "all-present"))
             if n.meta == "all-present":
                 acc_count("freedom:trailing-after-all-components")
             acc_count("freedom:trailing")
@@ -212,7 +223,7 @@ def run_case(a, mode, rseed):
     root = enc.message(a)
     nfree, depths = 0, set()
     if mode[0] == "random":
-        nfree, depths = apply_random(root, r, cnt)
+        nfree, depths = apply_random(root, r, cnt, a=a)
     elif mode[0] == "ad84":
         for n, d in all_nodes(root):
             n.lenform = 4
@@ -234,7 +245,10 @@ def run_case(a, mode, rseed):
             elif fr == "trail1" or fr == "trail2":
                 if n.kind == "SEQ" and n.children is not None:
                     for _ in range(int(fr[-1])):
-                        n.children.append(g_trailing(r, n.meta == "all-present"))
+                        t10 = envelope_trailing(r, a) if (d == 0 and r.random() < 0.35) else None
+                        if t10 is not None:
+                            cnt("freedom:trailing-envelope-[10]")
+                        n.children.append(t10 or g_trailing(r, n.meta == "all-present"))
                     cnt("freedom:trailing")
                     cnt("trailing-in:" + ("envelope" if d == 0 else f"{'APPL' if n.cls == 1 else ('CTX' if n.cls == 2 else 'UNIV')}{n.num}"))
         cnt("systematic")
